@@ -332,10 +332,10 @@ fn run_bytes(case: &Value) -> Option<Value> {
     let mut first: Option<Result<(Value, usize), (bool, String)>> = None;
     for poison in [0x00u8, 0xFF] {
         crate::MAX_GRANTED.store(0, std::sync::atomic::Ordering::Relaxed);
-        let t0 = std::time::Instant::now();
+        let t0 = crate::util::thread_cpu_ms();
         let Some(r) = dec_bytes(name, &bytes, poison) else { return Some(json!({"kind": "harness", "what": format!("unknown type {name}")})) };
         let granted = crate::MAX_GRANTED.load(std::sync::atomic::Ordering::Relaxed);
-        let elapsed = t0.elapsed().as_millis() as u64;
+        let elapsed = crate::util::thread_cpu_ms().saturating_sub(t0); // CPU time: not inflated by a busy machine
         // cost is governed by the length of the input, not by the sizes it announces
         if granted > 64 * bytes.len() + 4096 {
             return Some(json!({"kind": "cost", "what": "memory claimed according to an announced size", "granted_bytes": granted, "input_len": bytes.len()}));
